@@ -134,11 +134,17 @@ REG.contract(T + "Model.add_term", params={"term": "any"}, returns=T + "Model", 
                  "forall_obj(lambda x: (x in self.group_terms) == ((x in old(self.group_terms)) or "
                  "(x == term and is_a(term, 'GroupSpecificTerm'))))",
                  "forall(0, old(len(self.common_terms)), lambda k: self.common_terms[k] == old(self.common_terms)[k])",
-                 "forall(0, old(len(self.group_terms)), lambda k: self.group_terms[k] == old(self.group_terms)[k])"])
+                 "forall(0, old(len(self.group_terms)), lambda k: self.group_terms[k] == old(self.group_terms)[k])",
+                 # lists only grow, by at most the new term (stated so that callers need no counting argument)
+                 "old(len(self.common_terms)) <= len(self.common_terms)", "len(self.common_terms) <= old(len(self.common_terms)) + 1",
+                 "old(len(self.group_terms)) <= len(self.group_terms)", "len(self.group_terms) <= old(len(self.group_terms)) + 1",
+                 "implies(is_a(term, 'GroupSpecificTerm'), len(self.common_terms) == old(len(self.common_terms)))",
+                 "implies(not is_a(term, 'GroupSpecificTerm'), len(self.group_terms) == old(len(self.group_terms)))"])
 REG.contract(T + "Model.terms", returns="list[any]", tags=["C02"],
              ensures=["len(result) == len(self.common_terms) + len(self.group_terms)",
                       "forall(0, len(self.common_terms), lambda k: result[k] == self.common_terms[k])",
-                      "forall(0, len(self.group_terms), lambda k: result[len(self.common_terms) + k] == self.group_terms[k])"])
+                      # (stated on the position in the result, so that reading result[j] triggers the fact)
+                      "forall(len(self.common_terms), len(result), lambda j: result[j] == self.group_terms[j - len(self.common_terms)])"])
 # '-' : set difference (the right operand is a single term here; the Model - Model variant is below)
 REG.contract(T + "Model.__sub__", params={"other": "any"}, returns=T + "Model", tags=["C02"],
              requires=INV_M + ["is_a(other, 'Term') or is_a(other, 'Intercept') or is_a(other, 'GroupSpecificTerm')",
@@ -185,10 +191,10 @@ REG.contract(T + "Model.__add__#model", of=T + "Model.__add__", params={"other":
                  "old(len(self.common_terms)) <= len(self.common_terms)",
                  "forall(0, old(len(self.common_terms)), lambda k: self.common_terms[k] == old(self.common_terms)[k])",
                  "forall_obj(lambda x: (x in self.common_terms) == ((x in old(self.common_terms)) or "
-                 "exists(0, _i1, lambda k: k < len(other.common_terms) and other.common_terms[k] == x)))",
+                 "exists(0, (_i1 if _i1 < len(other.common_terms) else len(other.common_terms)), lambda k: other.common_terms[k] == x)))",
                  "forall_obj(lambda x: (x in self.group_terms) == ((x in old(self.group_terms)) or "
-                 "exists(len(other.common_terms), _i1, lambda k: other.group_terms[k - len(other.common_terms)] == x)))"],
-                 modifies=["self.common_terms", "self.group_terms"])})
+                 "exists(0, (_i1 - len(other.common_terms) if _i1 > len(other.common_terms) else 0), lambda k: other.group_terms[k] == x)))"],
+                 cases=["_i1 < len(other.common_terms)", "_i1 + 1 < len(other.common_terms)"], modifies=["self.common_terms", "self.group_terms"])})
 REG.contract(T + "Model.__sub__#model", of=T + "Model.__sub__", params={"other": T + "Model"}, returns=T + "Model", tags=["C02"],
              requires=INV_M + INV_O, modifies=["self.common_terms", "self.group_terms"],
              ensures=INV_M_POST + [
@@ -198,10 +204,10 @@ REG.contract(T + "Model.__sub__#model", of=T + "Model.__sub__", params={"other":
              loops={1: Loop(invariant=INV_M + [
                  "0 <= _i1", "_i1 <= len(other.common_terms) + len(other.group_terms)",
                  "forall_obj(lambda x: (x in self.common_terms) == ((x in old(self.common_terms)) and "
-                 "not exists(0, _i1, lambda k: k < len(other.common_terms) and other.common_terms[k] == x)))",
+                 "not exists(0, (_i1 if _i1 < len(other.common_terms) else len(other.common_terms)), lambda k: other.common_terms[k] == x)))",
                  "forall_obj(lambda x: (x in self.group_terms) == ((x in old(self.group_terms)) and "
-                 "not exists(len(other.common_terms), _i1, lambda k: other.group_terms[k - len(other.common_terms)] == x)))"],
-                 modifies=["self.common_terms", "self.group_terms"])})
+                 "not exists(0, (_i1 - len(other.common_terms) if _i1 > len(other.common_terms) else 0), lambda k: other.group_terms[k] == x)))"],
+                 cases=["_i1 < len(other.common_terms)", "_i1 + 1 < len(other.common_terms)"], modifies=["self.common_terms", "self.group_terms"])})
 FUNCTIONS += [T + "Model.__add__#model", T + "Model.__sub__#model"]
 ASSUMPTIONS += ["Model (+|-) Model is verified for two distinct Model objects (no aliasing of self and other)"]
 
